@@ -15,6 +15,7 @@ EXTENDS Naturals, Sequences, TLC, Json, FiniteSets
 CONSTANTS Alphabet,   \* lexemes (character sequences) offered after the prefix
           MaxLen,     \* lexemes fed after the prefix
           Prefix,     \* fixed beginning of every text (a sequence of characters)
+          Suffix,     \* fixed end appended to every explored text before it is judged
           PatternKw,  \* the keyword `pattern` as a character sequence
           LF, TAB, CR, DQ, SQ, BS
 
@@ -221,5 +222,6 @@ RECURSIVE Positions(_)
 Positions(f) == IF f = <<>> THEN {} ELSE {<<f[1].line, f[1].col>>} \cup Positions(f[1].kids) \cup Positions(Tail(f))
 StmtPosInText == \A p \in Positions(Result(s).forest) : p[1] <= s.line /\ p[2] >= 1
 
-Export == Len(s.text) < Len(Prefix) \/ PrintT(<<"CASE", ToJson([text |-> s.text, out |-> s.out, res |-> Result(s)])>>)
+Closed == FeedAll(s, Suffix)
+Export == Len(s.text) < Len(Prefix) \/ PrintT(<<"CASE", ToJson([text |-> Closed.text, out |-> Closed.out, res |-> Result(Closed)])>>)
 =============================================================================
